@@ -512,6 +512,11 @@ class HostConnection(object):
             if self._keyspace:
                 conn.set_keyspace_blocking(self._keyspace)
             self._connection = conn
+            # a keyspace switch may have been applied to the old connection while
+            # this one was being set up
+            keyspace = self._keyspace
+            if keyspace and conn.keyspace != keyspace:
+                conn.set_keyspace_blocking(keyspace)
         except Exception:
             log.warning("Failed reconnecting %s. Retrying." % (self.host.endpoint,))
             self._session.submit(self._replace, connection)
